@@ -22,6 +22,7 @@ import common as C
 import implutil as U
 
 STATIC = ["Model/Evolve.vo"]
+EXTRA_PROPS = ["C06b"]
 IMPORTS = "From SSP Require Import Model.Evolve."
 SENT = float.fromhex("0x1.deadp+1000")
 
